@@ -35,7 +35,9 @@ RULE = (
     "forests of nested disable_message_validation(ignore) blocks left normally, by an ordinary exception (ValueError, KeyError, "
     "StopIteration), by a BaseException (KeyboardInterrupt, SystemExit, GeneratorExit, asyncio.CancelledError, a custom "
     "BaseException subclass) or entered in a generator that is suspended inside the block and then closed / dropped, and probes with an "
-    "invalid assignment inside every block and after every exit. Non-trivial = an out-of-domain element at a "
+    "invalid assignment inside every block and after every exit. Two more campaigns draw op sequences (start / resume / close / "
+    "caller probe) over 1-2 generators or hand-driven coroutines that suspend INSIDE their own disable block: the caller, which is "
+    "in no block, probes while they are suspended ('suspended') or only once none is inside a real block ('interleaved'). Non-trivial = an out-of-domain element at a "
     "non-first position of a sequence, or out-of-domain content in a reused, mutated sequence object, or an out-of-domain store "
     "through a view bound inside a since-left disable block, or an "
     "accepted boundary value, or a disable forest with a block left by "
@@ -45,11 +47,15 @@ RULE = (
 ASSUME = [
     "don't-cares (never asserted either way): bool for int/float/byte fields, NaN for float fields, '' and bytes for Char, "
     "bytes for String, bytes objects as elements of a sequence for ByteArray, Fraction/Decimal for float fields (not generated), "
-    "scalar ctypes instances of a type other than the field's own and non-finite c_float/c_double scalars (the isinstance fast "
-    "path; not generated), empty slices, the exception type (any exception counts as refused)",
+    "NaN held by a c_float/c_double scalar, empty slices, the exception type (any exception counts as refused)",
+    "scalar ctypes instances are judged on the Python value they hold: an instance of the field's own ctype (the __set__ "
+    "signatures list it) is in-domain unless it holds +-inf (float fields) or a byte >= 0x80 (Char), which must be refused "
+    "like the plain Python value; an instance of any other ctypes type (wider, narrower, other kind) or one used as an element "
+    "of a sequence must be refused when the held value is outside the domain and is a don't-care otherwise (if accepted it "
+    "must read back as the held value)",
     "ctypes arrays (listed by the __set__ signatures as accepted values) of any of the 8 integer element types, and c_float/"
     "c_double, are judged element-wise on the Python values they hold: in-domain iff every element is in the field's domain and "
-    "the length matches; a scalar ctypes instance of the field's own ctype is in-domain when finite",
+    "the length matches",
     "in-domain canonical values (ints in range, finite representable floats/ints, ASCII strings of length <= n-1, one ASCII "
     "char, byte 0..255 or 1-byte bytes, equal-length list/tuple/bytes/range of such, exact struct class instances, a bound "
     "array of identical element type and length) must be ACCEPTED: this is what tests/test_validators.py::test_validator_range "
@@ -59,8 +65,11 @@ ASSUME = [
     "strings are compared up to the first NUL; stale bytes behind the NUL inside the field are allowed",
     "a store executed INSIDE a real disable block through a view bound outside it: no document decides whether it is validated, "
     "and the property only speaks about validation being on: such stores are executed but not judged",
-    "while a generator is suspended inside a disable block nothing is probed in the caller (whether the caller is then 'inside' "
-    "the block is decided by no document); after close()/garbage collection validation must be in force again",
+    "in the forest campaign nothing is probed in the caller while a generator is suspended inside a block (that is the subject "
+    "of the separate 'suspended' campaign, whose finding on the unchanged code is a known open one); after close() / garbage "
+    "collection / normal completion validation must be in force again",
+    "a caller that is lexically and dynamically outside every disable block is 'not inside an explicit disable block' even while "
+    "a generator or coroutine it drives is suspended inside one (asyncio Tasks run in their own context and are not affected)",
     "disable-block probes use assignments that ctypes itself accepts silently (int8=200, byte=256, float32[]=[0,1e39,..], "
     "struct=()), so 'raised' can only come from the validators",
 ]
@@ -82,6 +91,14 @@ _BOUND = (V.ArrayField, V.StructArray)
 
 # ------------------------------------------------------------------------------------------------
 # executor + oracle (used by the Hypothesis wrapper and by replay)
+
+
+def _reset_validation():
+    """Clean state between cases, whatever an earlier case (or a defect) left behind."""
+    V._VALIDATION_ENABLED.set(True)
+    depth = getattr(V, "_DISABLE_DEPTH", None)  # a nesting counter, should the code under test keep one
+    if depth is not None:
+        depth.set(0)
 
 
 VIEW_ORIGINS = ["outside", "outside-then-block", "inside-normal", "inside-exc", "inside-base", "used-inside"]
@@ -350,8 +367,11 @@ def do_step(root: MessageBase, step: dict, group: str, res: Result, trace: dict)
         raised = e
     finally:
         if origin is not None:
-            V._VALIDATION_ENABLED.set(True)
+            _reset_validation()
     after = bytes(root)
+    cs_ = isinstance(value, ctypes._SimpleCData)
+    if cs_:
+        fc = fc + "@ctypes-scalar"
     if re_ is not None:
         fc = fc + "@reused-mutated-object"
         desc += " (the same object was stored before with valid content" + (" into another instance" if re_.get("other") else "") + " and mutated in place)"
@@ -362,6 +382,10 @@ def do_step(root: MessageBase, step: dict, group: str, res: Result, trace: dict)
     # one root-cause bucket for "a view bound inside a since-left disable block does not validate its stores"
     skipkey = ("array-view/bound-inside-left-disable-block/store-not-validated"
                if (origin or "").startswith("inside") and re_ is None else None)
+    if cs_ and j["verdict"] == "out" and skipkey is None:
+        # one bucket per validator family for "the isinstance(value, ctype) shortcut skips the value check"
+        fam_ = "float" if fi.kind in ("float", "farr") else "int" if fi.kind in ("int", "iarr") else fi.kind
+        skipkey = f"ctypes-scalar/{fam_}/{j['cause']}-accepted"
     if origin == "used-inside":
         # the store itself runs inside a real disable block: the property speaks about "validation on" only and no
         # document decides whether such a store is validated (nor how unvalidated values are converted): executed, not judged
@@ -382,7 +406,7 @@ def do_step(root: MessageBase, step: dict, group: str, res: Result, trace: dict)
     ctx = "-next-to-nan" if (verdict == "out" and j["has_nan"]) else ""
     if raised is not None:
         if after != before:
-            raise Violation(skipkey or f"{group}/{fc}/not-atomic", f"{desc}: raised {type(raised).__name__} but the message bytes changed", trace)
+            raise Violation((skipkey if not cs_ else None) or f"{group}/{fc}/not-atomic", f"{desc}: raised {type(raised).__name__} but the message bytes changed", trace)
         if verdict == "in":
             raise Violation(f"{group}/{fc}/in-domain-refused",
                             f"{desc}: in-domain value refused with {type(raised).__name__}: {raised}", trace)
@@ -432,12 +456,12 @@ def run_assign_case(trace: dict, res: Result):
     cls = msgs.resolve(trace["cls"])
     root = cls()
     res.count(f"{group}:class:{msgs.ref_class_kind(trace['cls'])}")
-    V._VALIDATION_ENABLED.set(True)
+    _reset_validation()
     try:
         for step in trace["steps"]:
             do_step(root, step, group, res, trace)
     finally:
-        V._VALIDATION_ENABLED.set(True)
+        _reset_validation()
 
 
 # -- disable blocks ---------------------------------------------------------------------------
@@ -449,7 +473,8 @@ class _CustomBase(BaseException):
 
 ORDINARY_EXITS = ["ValueError", "KeyError", "StopIteration"]
 BASE_EXITS = ["KeyboardInterrupt", "SystemExit", "GeneratorExit", "CancelledError", "CustomBaseException"]
-GEN_EXITS = ["gen-close", "gen-del"]  # block entered inside a generator that is suspended in it and then closed / dropped
+# block entered inside a generator that is suspended in it and then closed / dropped / resumed so that it leaves normally
+GEN_EXITS = ["gen-close", "gen-del", "gen-finish"]
 
 
 def _make_exit(kind: str) -> BaseException:
@@ -498,7 +523,7 @@ def run_disable_case(trace: dict, res: Result):
     # every case starts from a clean state, whatever an earlier case (or defect) left behind
     if not V._VALIDATION_ENABLED.get():
         res.count("disable:state-reset-before-case")
-    V._VALIDATION_ENABLED.set(True)
+    _reset_validation()
     kind = trace["probe"]
     st_ = {"last_abnormal": "", "probes": 0}
 
@@ -535,13 +560,16 @@ def run_disable_case(trace: dict, res: Result):
             def g():
                 with V.disable_message_validation(ignore=nd["ig"]):
                     body(nd, d2, name)
-                    yield 1
-                    raise HarnessError("generator resumed")  # never: it is closed while suspended in the block
+                    if (yield 1) != "leave":
+                        raise HarnessError("generator resumed")  # only gen-finish resumes it: the block is then left normally
+                yield 2
 
             gen = g()
             next(gen)  # runs the block body; Violation / HarnessError from it propagate to the caller
             if ek == "gen-close":
                 gen.close()
+            elif ek == "gen-finish":
+                gen.send("leave")
             else:
                 del gen  # last reference: CPython finalises (closes) the generator right here
         elif ek:
@@ -569,7 +597,7 @@ def run_disable_case(trace: dict, res: Result):
         for i, nd in enumerate(trace["tree"]):
             node(nd, 0, str(i))
     finally:
-        V._VALIDATION_ENABLED.set(True)
+        _reset_validation()
     sig = _sig(trace["tree"])
     if "!" in sig:
         res.shape("dis", sig, kind)
@@ -577,8 +605,111 @@ def run_disable_case(trace: dict, res: Result):
         res.sample({"disable-forest": sig, "probe": kind}, limit=5)
 
 
+class _Yield:
+    def __await__(self):
+        yield
+
+
+def _suspendable(kind: str, ignore: bool):
+    """A generator / hand-driven coroutine that enters a disable block, suspends INSIDE it, leaves it when resumed,
+    suspends once more outside and finishes at the next resume."""
+    if kind == "gen":
+        def g():
+            with V.disable_message_validation(ignore=ignore):
+                yield "in"
+            yield "out"
+
+        return g()
+
+    async def co():
+        with V.disable_message_validation(ignore=ignore):
+            await _Yield()
+        await _Yield()
+
+    return co()
+
+
+KEY_SUSPENDED = "disable/validation-off-while-generator-suspended-in-block"
+KEY_INTERLEAVED = "disable/validation-off-after-suspended-generators-left-their-blocks"
+
+
+def run_suspended_case(trace: dict, res: Result):
+    """The caller is never inside a disable block itself: each of its probe stores must be validated, whatever
+    generators / coroutines are suspended (inside or outside their own disable block), finished or closed."""
+    _reset_validation()
+    kind = trace["probe"]
+    gens = [dict(g, obj=None, state="new") for g in trace["gens"]]
+    sig = []
+
+    def probe(where: str):
+        try:
+            _probe_assign(kind)
+            raised = False
+        except HarnessError:
+            raise
+        except Exception:
+            raised = True
+        inside = [i for i, g in enumerate(gens) if g["state"] == "in" and not g["ig"]]
+        res.count(f"suspended:probe:{'generator-inside-block' if inside else 'no-generator-inside-block'}:{'raised' if raised else 'silent'}")
+        sig.append("P*" if inside else "P")
+        if not raised:
+            story = " ".join(sig)
+            if inside:
+                raise Violation(KEY_SUSPENDED, f"invalid {kind} probe accepted in the caller (which is in no disable block) while "
+                                f"{gens[inside[0]]['kind']} #{inside[0]} is suspended inside its disable block ({where}; ops {story})", trace)
+            raise Violation(KEY_INTERLEAVED, f"invalid {kind} probe accepted in the caller although no generator/coroutine is inside a "
+                            f"disable block any more ({where}; ops {story})", trace)
+
+    def step(g):
+        try:
+            g["obj"].send(None)
+            return True
+        except StopIteration:
+            return False
+
+    try:
+        for op in trace["ops"]:
+            if op[0] == "probe":
+                probe(f"op {len(sig)}")
+                continue
+            g = gens[op[1]]
+            sig.append(f"{op[0]}{op[1]}{'i' if g['ig'] else 'r'}{g['kind'][0]}")
+            if op[0] == "start" and g["state"] == "new":
+                g["obj"] = _suspendable(g["kind"], g["ig"])
+                step(g)
+                g["state"] = "in"
+            elif op[0] == "resume" and g["state"] in ("in", "out"):
+                g["state"] = "out" if (step(g) and g["state"] == "in") else "done"
+            elif op[0] == "close" and g["state"] in ("in", "out"):
+                g["obj"].close()
+                g["state"] = "done"
+            else:
+                raise HarnessError(f"op {op} in state {g['state']}")
+        for g in gens:  # finish: everything is closed, then validation must certainly be in force
+            if g["state"] in ("in", "out"):
+                g["obj"].close()
+                g["state"] = "done"
+        sig.append("end")
+        probe("after every generator was finished or closed")
+    finally:
+        for g in gens:
+            if g["obj"] is not None:
+                try:
+                    g["obj"].close()
+                except Exception:
+                    pass
+        _reset_validation()
+    story = " ".join(sig)
+    if "P*" in story or (len(gens) > 1 and any(x.startswith("resume") or x.startswith("close") for x in sig)):
+        res.shape("susp", story, kind)
+        res.count("nontrivial:caller-store-with-suspended-or-interleaved-generators")
+        res.sample({"suspended-generators": story, "probe": kind}, limit=5)
+
+
 def run_case(trace: dict, res: Result):
-    if trace["sub"] == "disable":
+    if trace["sub"] in ("suspended", "interleaved"):
+        run_suspended_case(trace, res)
+    elif trace["sub"] == "disable":
         run_disable_case(trace, res)
     else:
         run_assign_case(trace, res)
@@ -698,21 +829,55 @@ def _ctypes_array(draw, fi: FI, L: int):
     return {"C": src, "v": [enc(x) for x in vals]}
 
 
-@functools.lru_cache(maxsize=8192)
-def _own_ctype_scalar(fi: FI):
-    """A scalar ctypes instance of the field's own element type (always inside the domain when finite)."""
-    code = fi.code if fi.kind in ("int", "iarr", "float", "farr") else "byte"
-    if code in msgs.FLOAT_CODES:
-        vals = st.sampled_from([0.0, -0.0, 1.0, -1.5, 0.1, msgs.FLT_MAX, -msgs.FLT_MAX, 1e-45] + ([msgs.DBL_MAX, 5e-324, 1e39] if code == "f64" else []))
-        return vals.map(lambda x: {"c": code, "v": enc(x)})
+_CS_VALUES = {
+    "f32": [0.0, -0.0, 1.0, -1.5, 0.1, msgs.FLT_MAX, -msgs.FLT_MAX, 1e-45, float("inf"), float("-inf"), 1e39, -1e39, float("nan")],
+    "f64": [0.0, -0.0, 1.0, -1.5, 0.1, msgs.DBL_MAX, 5e-324, 1e39, msgs.FLT_OVER, float("inf"), float("-inf"), float("nan")],
+    "char": [bytes([x]) for x in (0, 1, 65, 97, 127, 128, 200, 233, 255)],
+}
+
+
+def _cs_values(code: str):
+    if code in _CS_VALUES:
+        return _CS_VALUES[code]
     lo, hi = msgs.INT_RANGE[code]
-    return st.one_of(st.sampled_from([lo, hi, 0, 1]), st.integers(lo, hi)).map(lambda x: {"c": code, "v": enc(x)})
+    return sorted({lo, hi, 0, 1, 5, 100, hi // 2 + 1})
+
+
+@functools.lru_cache(maxsize=8192)
+def _ctypes_scalar(fi: FI):
+    """Scalar ctypes instances as a value form: of the field's own ctype (in range by construction - except +-inf / NaN in
+    c_float/c_double and a non-ASCII c_char), of a wider/narrower type, or of another kind."""
+    k = fi.kind
+    own = fi.code if k in ("int", "iarr", "float", "farr") else "byte" if k in ("byte", "bytes") else "char" if k == "char" else None
+    alts = []
+    if own is not None:
+        vals = _cs_values(own)
+        o = st.sampled_from(vals)
+        if own not in _CS_VALUES:
+            o = st.one_of(o, st.integers(*msgs.INT_RANGE[own]))
+        own_st = o.map(lambda x: {"c": own, "v": enc(x)})
+        alts += [own_st, own_st]
+    codes = [c for c in msgs.CT if c != "byte" and c != own]
+    alts.append(st.sampled_from(codes).flatmap(lambda c: st.sampled_from(_cs_values(c)).map(lambda x: {"c": c, "v": enc(x)})))
+    return st.one_of(alts)
 
 
 @st.composite
 def _seq_value(draw, ccls: type, fi: FI, L: int, whole: bool):
     mode = draw(st.sampled_from(["valid", "valid", "one-bad", "one-bad", "one-bad", "dc-mix", "wrong-len", "not-a-seq", "source",
-                                 "ctypes", "ctypes"]))
+                                 "ctypes", "ctypes", "ctypes-elem"]))
+    if mode == "ctypes-elem":  # an otherwise valid sequence with scalar ctypes instance(s) as element(s)
+        if fi.kind not in ("iarr", "farr", "bytes") or L == 0:
+            mode = "one-bad"
+        else:
+            seq = draw(msgs.seq_in(fi, L))
+            if "l" not in seq and "u" not in seq:
+                seq = enc(list(dec(seq)))
+            tag = "l" if "l" in seq else "u"
+            elems = list(seq[tag])
+            for _ in range(draw(st.integers(1, 2))):
+                elems[draw(st.integers(0, L - 1))] = draw(_ctypes_scalar(fi))
+            return {tag: elems}
     if mode == "ctypes":
         if fi.kind in ("iarr", "farr", "bytes"):
             v = draw(_ctypes_array(fi, L))
@@ -763,8 +928,8 @@ def _step(draw, cls: type, kinds: frozenset, prefill: bool = False):
         d = _elem_dc(fi)
         if d is not None:
             alts.append(d)
-        if fi.kind in ("int", "float", "byte"):
-            alts.append(_own_ctype_scalar(fi))
+        if fi.kind != "struct":
+            alts.append(_ctypes_scalar(fi))
         step["v"] = draw(st.one_of(alts))
         return step
     if prefill:
@@ -787,7 +952,7 @@ def _step(draw, cls: type, kinds: frozenset, prefill: bool = False):
             alts.append(msgs.byte_in())
             alts.append(msgs.byte_out())
         if fi.kind in ("iarr", "farr", "bytes"):
-            alts.append(_own_ctype_scalar(fi))
+            alts.append(_ctypes_scalar(fi))
         alts.append(st.sampled_from([enc([]), enc(()), enc([0]), enc((0,)), enc(b""), enc(b"ab")]))
         step["v"] = draw(st.one_of(alts))
     else:
@@ -846,6 +1011,37 @@ def _node(depth: int):
     return st.builds(lambda ig, exc, c: {"ig": ig, "exc": exc, "ch": c}, st.booleans(), _EXIT, ch)
 
 
+@st.composite
+def suspended_case(draw, sub: str):
+    """Ops on 1-2 generators / coroutines; in the 'interleaved' campaign the caller only probes while none of them is
+    suspended inside a REAL disable block (so the known leak of a suspended block does not mask what happens afterwards)."""
+    gens = [{"ig": draw(st.integers(0, 3)) == 0, "kind": draw(st.sampled_from(["gen", "gen", "coro"]))}
+            for _ in range(draw(st.integers(1, 2)) if sub == "suspended" else 2)]
+    state = ["new"] * len(gens)
+    ops = []
+    for _ in range(draw(st.integers(1, 9))):
+        cand = []
+        for i, stt in enumerate(state):
+            if stt == "new":
+                cand.append(["start", i])
+            elif stt in ("in", "out"):
+                cand += [["resume", i], ["resume", i], ["close", i]]
+        inside = any(stt == "in" and not g["ig"] for stt, g in zip(state, gens))
+        if sub == "suspended" or not inside:
+            cand += [["probe"], ["probe"]]
+        if not cand:
+            break
+        op = draw(st.sampled_from(cand))
+        ops.append(op)
+        if op[0] == "start":
+            state[op[1]] = "in"
+        elif op[0] == "resume":
+            state[op[1]] = "out" if state[op[1]] == "in" else "done"
+        elif op[0] == "close":
+            state[op[1]] = "done"
+    return {"sub": sub, "gens": gens, "ops": ops, "probe": draw(st.sampled_from(["int", "byte", "farr", "struct"]))}
+
+
 def disable_case():
     return st.builds(lambda tree, probe: {"sub": "disable", "tree": tree, "probe": probe},
                      st.lists(_node(3), min_size=1, max_size=4), st.sampled_from(["int", "byte", "farr", "struct"]))
@@ -859,7 +1055,10 @@ def shard(seed: int, n_assign: int, n_disable: int) -> Result:
     for gi, group in enumerate(GROUPS):
         hyp_run(lambda t: run_case(t, res), assign_case(group), seed * 16 + gi, n_assign, res)
     hyp_run(lambda t: run_case(t, res), disable_case(), seed * 16 + 15, n_disable, res)
-    V._VALIDATION_ENABLED.set(True)
+    # own campaigns, so that a finding here (one is a known open one) cannot hide anything in the forest campaign
+    hyp_run(lambda t: run_case(t, res), suspended_case("suspended"), seed * 16 + 14, max(1, n_disable // 2), res)
+    hyp_run(lambda t: run_case(t, res), suspended_case("interleaved"), seed * 16 + 13, max(1, n_disable // 2), res)
+    _reset_validation()
     return res
 
 
@@ -876,4 +1075,4 @@ def replay_trace(trace: dict) -> None:
     try:
         run_case(trace, Result())
     finally:
-        V._VALIDATION_ENABLED.set(True)
+        _reset_validation()
